@@ -83,15 +83,11 @@ class Report:
                     elif st == 'undecided':
                         undecided.append(f"{ob['name']}: {ob.get('reason')}")
                     elif st == 'failed':
-                        v_ = self._violation_from_obligation(ob)
-                        if ob['kind'] in ('inv-step', 'inv-init', 'cut') and not v_['reproduced']:
-                            # an AUXILIARY obligation (a loop invariant or cut chosen for the proof, not a clause of the property) was refuted and the
-                            # counter-model does not reproduce a property violation on the real code: the proof no longer fits the code, which decides
-                            # nothing about the property (a behaviour-preserving edit inside a loop does this) - undecided, never a violation claim
-                            undecided.append(f"{ob['name']}: auxiliary obligation (loop invariant) refuted by the solver; its counter-model does not reproduce on the real code "
-                                             f"({v_['line'].split('replay=')[1].split()[0]})")
-                        else:
-                            violations.append(v_)
+                        # a refuted obligation is reported as a violation whether it is a clause of the contract or an auxiliary obligation (loop
+                        # invariant) of the proof: an obligation that was discharged on the unchanged tree and is now refuted, with the solver's
+                        # model attached (`no-failing-input-found` when the replay does not reproduce).  The price - a behaviour-preserving edit
+                        # inside a loop can refute an invariant - is discussed in DESIGN 10.5.
+                        violations.append(self._violation_from_obligation(ob))
             elif r['kind'] == 'bounded':
                 b = {k: r.get(k) for k in ('name', 'bound', 'evaluations', 'distinct_nontrivial', 'rule', 'exhaustive', 'wall_s')}
                 b['violations'] = len(r.get('violations', []))
